@@ -10,6 +10,27 @@ from ..ref import names, avrobin, noncanon
 
 LEVEL = 'exploration'
 
+_U = 'a1b2c3d4e5f60718293a4b5c6d7e8f90'
+# every leaf kind as a union branch, as a record field and as array/map items (all rewrite kinds are reachable without randomness)
+_LEAVES = [('boolean', {'b': True}), ('int', {'i': 5}), ('long', {'l': 5}), ('float', {'f': '0x3fc00000'}), ('double', {'d': '0x3ff8000000000000'}), ('bytes', {'B': '0102'}),
+           ('string', {'s': 'x'}), ({'type': 'fixed', 'name': 'F', 'size': 2}, {'F': '0102', 'n': 2}), ({'type': 'enum', 'name': 'E', 'symbols': ['A', 'B']}, {'e': [1, 'B']}),
+           ({'type': 'enum', 'name': 'Ed', 'symbols': ['A', 'B'], 'default': 'A'}, {'e': [1, 'B']}),
+           ({'type': 'array', 'items': 'int'}, {'a': [{'i': 1}]}), ({'type': 'map', 'values': 'int'}, {'m': [['k', {'i': 1}]]}),
+           ({'type': 'record', 'name': 'Rr', 'fields': [{'name': 'x', 'type': 'int'}, {'name': 'y', 'type': ['null', 'string']}]}, {'r': [['x', {'i': 1}], ['y', {'u': [0, None]}]]}),
+           ({'type': 'int', 'logicalType': 'date'}, {'date': 3}), ({'type': 'int', 'logicalType': 'time-millis'}, {'tms': 3}), ({'type': 'long', 'logicalType': 'time-micros'}, {'tus': 3}),
+           ({'type': 'long', 'logicalType': 'timestamp-millis'}, {'tsms': 3}), ({'type': 'long', 'logicalType': 'timestamp-micros'}, {'tsus': 3}), ({'type': 'long', 'logicalType': 'timestamp-nanos'}, {'tsns': 3}),
+           ({'type': 'long', 'logicalType': 'local-timestamp-millis'}, {'ltsms': 3}), ({'type': 'long', 'logicalType': 'local-timestamp-micros'}, {'ltsus': 3}), ({'type': 'long', 'logicalType': 'local-timestamp-nanos'}, {'ltsns': 3}),
+           ({'type': 'bytes', 'logicalType': 'decimal', 'precision': 6, 'scale': 2}, {'dec': '0102'}), ({'type': 'fixed', 'name': 'Df', 'size': 3, 'logicalType': 'decimal', 'precision': 6}, {'dec': '000102'}),
+           ({'type': 'bytes', 'logicalType': 'big-decimal'}, {'bigdec': ['12', 1]}), ({'type': 'string', 'logicalType': 'uuid'}, {'uuid': _U}), ({'type': 'bytes', 'logicalType': 'uuid'}, {'uuid': _U}),
+           ({'type': 'fixed', 'name': 'Uf', 'size': 16, 'logicalType': 'uuid'}, {'uuid': _U}), ({'type': 'fixed', 'name': 'Du', 'size': 12, 'logicalType': 'duration'}, {'dur': [1, 2, 3]})]
+EXTRA_SCHEMAS = []
+for _t, _v in _LEAVES:
+    EXTRA_SCHEMAS.append((['null', _t], [{'u': [1, _v]}]))
+    EXTRA_SCHEMAS.append(([_t, 'null'], [{'u': [0, _v]}]))
+    EXTRA_SCHEMAS.append(({'type': 'record', 'name': 'Wrap', 'fields': [{'name': 'pre', 'type': 'long'}, {'name': 'f', 'type': _t}, {'name': 'opt', 'type': ['null', 'int']}]},
+                          [{'r': [['pre', {'l': 9}], ['f', _v], ['opt', {'u': [0, None]}]]}]))
+    EXTRA_SCHEMAS.append(({'type': 'array', 'items': _t}, [{'a': [_v]}]))
+
 
 def check(run, replay_case=None):
     n_schemas = 500 if run.quick() else 15000
@@ -27,6 +48,13 @@ def check(run, replay_case=None):
         cases = []
         bc = common.boundary_cases()
         n = 0
+        # deterministic part: every rewrite site of boundary values of every boundary schema (seed independent)
+        for bi, (j, vals) in enumerate(bc + EXTRA_SCHEMAS):
+            node, env = names.parse(j)
+            for c in vals[:3]:
+                for path, kind, new, intent in MV.sites(node, env, c):
+                    cases.append({'cid': 'q%d' % n, 'schema': j, 'canonical': c, 'value': MV.apply(c, path, new), 'mutation': kind, 'site_depth': len(path), 'intent': intent})
+                    n += 1
         for i in range(n_schemas):
             rng = random.Random('%s/c07/%d' % (run.seed, i))
             if i % 3 == 0:
